@@ -52,7 +52,11 @@ pub struct ReloadPlan {
     pub reload_twice: bool,
     /// indices (cluster, front) of the routes probed with real requests
     pub probes: Vec<(usize, usize)>,
+    /// workers forked at boot (each binds every listener address: SO_REUSEPORT group, connections spread by the PRNG)
+    #[serde(default = "one")]
+    pub workers: u16,
 }
+fn one() -> u16 { 1 }
 
 pub fn generate(seed: u64, tier: Tier) -> ReloadPlan {
     let mut rng = Prng::derive(seed, "c20/cluster");
@@ -81,7 +85,7 @@ pub fn generate(seed: u64, tier: Tier) -> ReloadPlan {
     let mut cand: Vec<(usize, usize)> = clusters.iter().enumerate().filter(|(_, c)| !c.backends.is_empty()).flat_map(|(ci, c)| (0..c.fronts.len()).map(move |fi| (ci, fi))).collect();
     rng.shuffle(&mut cand);
     cand.truncate(6);
-    ReloadPlan { seed, family: "cluster_reload".into(), sched: netsim::default_sched(&mut rng, false), listeners, clusters, style: rng.below(2) as u8, clusters_first: rng.below(3) == 0, frag: rng.below(3) as u8, reload_twice: rng.below(2) == 0, probes: cand }
+    ReloadPlan { seed, family: "cluster_reload".into(), sched: netsim::default_sched(&mut rng, false), listeners, clusters, style: rng.below(2) as u8, clusters_first: rng.below(3) == 0, frag: rng.below(3) as u8, reload_twice: rng.below(2) == 0, probes: cand, workers: if rng.below(3) == 0 { 2 } else { 1 } }
 }
 
 pub fn render(p: &ReloadPlan) -> String {
@@ -118,7 +122,8 @@ pub fn run(p: &ReloadPlan, log: bool) -> (RunReport, String) {
         let path_s = path.to_string_lossy().to_string();
         let mut w = World::new(p.seed, p.sched.clone());
         w.log_on = log;
-        let knobs = ClusterKnobs::default();
+        let mut knobs = ClusterKnobs::default();
+        knobs.workers = p.workers.max(1);
         let rec = Arc::new(Mutex::new(CliRecord::default()));
         let mut steps: Vec<CliStep> = Vec::new();
         let mut rl = CliStep::new("reload", RequestType::ReloadConfiguration(path_s.clone()).into());
@@ -213,9 +218,12 @@ pub fn run(p: &ReloadPlan, log: bool) -> (RunReport, String) {
                     let Some(ci) = l.strip_prefix(&format!("{pref}:")).and_then(|x| x.parse::<usize>().ok()) else { continue };
                     let c = &p.clusters[ci];
                     let s = &r.steps[li];
-                    let workers = per_worker(s.content());
-                    let info = workers.first().and_then(|(_, c)| match &c.content_type { Some(ContentType::Clusters(ci)) => ci.vec.first().cloned(), _ => None });
-                    let Some(info) = info else { v.push(Violation::new("declared_differs_from_loaded", format!("cluster_missing_in_worker|{pref}"), format!("QueryClusterById({}) has no answer from the worker (status {:?})", c.id, s.final_status()))); continue };
+                    // the gathered answer also carries the main process's own entry ("main")
+                    let workers: Vec<_> = per_worker(s.content()).into_iter().filter(|(k, _)| k.parse::<u32>().is_ok()).collect();
+                    if workers.len() != p.workers.max(1) as usize { v.push(Violation::new("declared_differs_from_loaded", format!("worker_answers={}|{pref}", workers.len()), format!("QueryClusterById({}) was answered by {} worker(s), {} are running (status {:?})", c.id, workers.len(), p.workers, s.final_status()))); }
+                    for (wid, wc) in &workers {
+                    let info = match &wc.content_type { Some(ContentType::Clusters(ci)) => ci.vec.first().cloned(), _ => None };
+                    let Some(info) = info else { v.push(Violation::new("declared_differs_from_loaded", format!("cluster_missing_in_worker|{pref}"), format!("QueryClusterById({}) has no answer from worker {wid} (status {:?})", c.id, s.final_status()))); continue };
                     views_compared += 1;
                     let mut want_f: Vec<String> = c.fronts.iter().map(|f| format!("{}|{}|{}|{}", p.listeners[f.listener], f.host, f.path, if f.equals { "EQUALS" } else { "PREFIX" })).collect();
                     let mut got_f: Vec<String> = info.http_frontends.iter().map(|f| { let a: SocketAddr = f.address.into(); format!("{}|{}|{}|{}", a, f.hostname, f.path.value, match f.path.kind { 0 => "PREFIX", 1 => "REGEX", _ => "EQUALS" }) }).collect();
@@ -224,7 +232,8 @@ pub fn run(p: &ReloadPlan, log: bool) -> (RunReport, String) {
                     let mut want_b: Vec<String> = c.backends.iter().map(|b| b.to_string()).collect();
                     let mut got_b: Vec<String> = info.backends.iter().map(|b| { let a: SocketAddr = b.address.into(); a.to_string() }).collect();
                     want_b.sort(); got_b.sort();
-                    if want_b != got_b { v.push(Violation::new("declared_differs_from_loaded", format!("backends|{pref}|{size}"), format!("cluster {}: file declares {want_b:?}, the worker holds {got_b:?}", c.id))); }
+                    if want_b != got_b { v.push(Violation::new("declared_differs_from_loaded", format!("backends|{pref}|{size}"), format!("cluster {}: file declares {want_b:?}, worker {wid} holds {got_b:?}", c.id))); }
+                    }
                 }
             }
             // behaviour: the routes answer
@@ -246,7 +255,8 @@ pub fn run(p: &ReloadPlan, log: bool) -> (RunReport, String) {
         rep.probes.insert("views_compared".into(), views_compared);
         rep.probes.insert(format!("size_{size}"), 1);
         rep.nontrivial = views_compared > 0;
-        rep.summary = format!("real main + fresh worker: ReloadConfiguration of a file with {} listeners, {} clusters, {} frontends, {} backends (style {}, clusters_first {}), {} routes probed{}", p.listeners.len(), p.clusters.len(), p.clusters.iter().map(|c| c.fronts.len()).sum::<usize>(), p.clusters.iter().map(|c| c.backends.len()).sum::<usize>(), p.style, p.clusters_first, p.probes.len(), if p.reload_twice { ", reloaded a second time" } else { "" });
+        rep.probes.insert(format!("workers_{}", p.workers), 1);
+        rep.summary = format!("real main + fresh worker(s): ReloadConfiguration of a file with {} listeners, {} clusters, {} frontends, {} backends (style {}, clusters_first {}), {} routes probed{}", p.listeners.len(), p.clusters.len(), p.clusters.iter().map(|c| c.fronts.len()).sum::<usize>(), p.clusters.iter().map(|c| c.backends.len()).sum::<usize>(), p.style, p.clusters_first, p.probes.len(), if p.reload_twice { ", reloaded a second time" } else { "" });
         rep.violations = v;
         rep.trace_hash = w.trace.0;
         w.stats.virtual_ns = w.now.saturating_sub(1000 * SEC);
